@@ -322,16 +322,35 @@ def lint_usage_loop(run, twin=None):
     run.concretise = lambda model, ob: {'input': '`locals` bound in two branches of a function', 'script': USAGE_REPLAY % {'repo': core.REPO}}
     holder = {}
 
+    def marks_ok():
+        """after the iteration: exactly the alternatives of the table entry are marked used; a dotted import is remembered"""
+        import supp.name as Nm
+        alts, val, other, qi, ident = holder['alts'], holder['val'], holder['other'], holder['qi'], holder['ident']
+        if val is None:
+            return not getattr(other, 'used', False) and not qi.added
+        is_locals_builtin = ident == 'locals' and isinstance(val, Nm.RuntimeName)
+        if is_locals_builtin:
+            # locals(): every name of the scope visible there counts as read
+            return getattr(other, 'used', False) is True
+        marked = all(getattr(a, 'used', False) is True for a in alts)
+        others_clean = not getattr(other, 'used', False)
+        want_q = [ident] if (type(val) is Nm.ImportedName and val.qualified) else []
+        return marked and others_clean and qi.added == want_q
+
     def inv(L, st):
         r = st['result']
         want = holder['want']
+        at_next = r.base + 1 == L.k
         if not r.items:
-            return z3.BoolVal(want is None) if r.base is not L.k and False else z3.Or(r.base == L.k, z3.And(r.base + 1 == L.k, z3.BoolVal(want is None)))
+            if want is not None:
+                return r.base == L.k
+            # no diagnostic expected: at k+1 the marks must be right
+            return z3.Or(r.base == L.k, z3.And(at_next, z3.BoolVal(bool(marks_ok()))))
         if len(r.items) != 1 or want is None:
             return z3.BoolVal(False)
         t = r.items[0]
         ok = isinstance(t, tuple) and len(t) == 5 and t[0] == want[0] and t[2:4] == (7, 3) and isinstance(t[1], str) and t[1] == want[1]
-        return z3.And(r.base + 1 == L.k, z3.BoolVal(bool(ok)))
+        return z3.And(at_next, z3.BoolVal(bool(ok) and bool(marks_ok())))
 
     def hav(L, st):
         st['result'].havoc(L, L.k)
